@@ -70,6 +70,7 @@ type dbOpenRes struct {
 	Err  string   `json:"err,omitempty"`
 	Vals [][]byte `json:"vals"`  // value per key, nil entry = not found
 	Found []bool  `json:"found"`
+	Tables []uint64 `json:"tables"` // generations of the live tables right after Open
 }
 
 // open an image, read every key, close
@@ -87,6 +88,10 @@ func dbOpenChild(args []string) int {
 	if err != nil {
 		res.Err = err.Error()
 	} else {
+		for _, t := range db.VerifTables() {
+			g, _ := genOfDir(filepath.Base(t.Path))
+			res.Tables = append(res.Tables, g)
+		}
 		for _, k := range a.Keys {
 			v, err := db.GetBytes(k)
 			if err != nil {
@@ -124,6 +129,7 @@ type dbImgObs struct {
 	Child    string    `json:"child,omitempty"` // "hang" / "crashed: ..."
 	Nested   []nestObs `json:"nested,omitempty"`
 	What     string    `json:"what,omitempty"` // last event before the boundary
+	Abs      string    `json:"abs,omitempty"`  // the image as a disk of Fs/Crash.v
 }
 
 type nestObs struct {
@@ -131,6 +137,8 @@ type nestObs struct {
 	Res      dbOpenRes `json:"res"`
 	Child    string    `json:"child,omitempty"`
 	What     string    `json:"what,omitempty"`
+	Abs      string    `json:"abs,omitempty"`
+	Alt      bool      `json:"alt,omitempty"` // an image of another listing order: not the successor of the previous one
 }
 
 type c02Case struct {
@@ -138,6 +146,7 @@ type c02Case struct {
 	Steps   []dbStep `json:"steps"`
 	Keys    [][]byte `json:"keys"`
 	Nest    int      `json:"nest"` // number of distinct images on which recovery itself is cut (C10)
+	NoAbs   bool     `json:"no_abs,omitempty"` // big sessions: the images are judged by the oracle only, not by the model
 	// observations
 	Images  []dbImgObs `json:"images"`
 	NEvents int        `json:"n_events"`
@@ -235,6 +244,9 @@ func (c *c02Case) Exec() {
 		os.RemoveAll(cp)
 		must(copyTree(img, cp))
 		ob := dbImgObs{Boundary: b, Acked: acked, InFlight: inflight, What: what}
+		if !c.NoAbs {
+			ob.Abs = absImage(img)
+		}
 		so, cerr := runChild("c02open", dbOpenArgs{Dir: cp, Opts: c.Opts, Keys: c.Keys}, 30*time.Second)
 		ob.Res, ob.Child = parseOpen(so, cerr)
 		c.Images = append(c.Images, ob)
@@ -275,7 +287,10 @@ func (c *c02Case) Exec() {
 			os.RemoveAll(cp2)
 			must(copyTree(image, cp2))
 			so, cerr := runChild("c02open", dbOpenArgs{Dir: cp2, Opts: c.Opts, Keys: c.Keys}, 30*time.Second)
-			n := nestObs{Boundary: j, What: what}
+			n := nestObs{Boundary: j, What: what, Alt: image != img2}
+			if !c.NoAbs {
+				n.Abs = absImage(image)
+			}
 			n.Res, n.Child = parseOpen(so, cerr)
 			ob.Nested = append(ob.Nested, n)
 		}
@@ -506,7 +521,56 @@ func (c *c02Case) Oracle() (bool, string) {
 	return true, ""
 }
 
-func (c *c02Case) Sx() string { return "" }
+// (keys async ((abs acked inflight ok vals tables ((abs alt ok vals tables) ...)) ...))
+func (c *c02Case) Sx() string {
+	if c.Fatal != "" || c.NoAbs || len(c.Images) == 0 {
+		return ""
+	}
+	var keys []string
+	for _, k := range c.Keys {
+		keys = append(keys, sxB(k))
+	}
+	resSx := func(res dbOpenRes, child string) (string, string, string) {
+		ok := child == "" && res.Err == "" && len(res.Found) == len(c.Keys)
+		var vals, tabs []string
+		if ok {
+			for i := range c.Keys {
+				if res.Found[i] {
+					vals = append(vals, sxOB(append([]byte{}, res.Vals[i]...)))
+				} else {
+					vals = append(vals, "()")
+				}
+			}
+			for _, g := range res.Tables {
+				tabs = append(tabs, sxN(g))
+			}
+		}
+		return sxBool(ok), sxList(vals), sxList(tabs)
+	}
+	var imgs []string
+	total := 0
+	for _, im := range c.Images {
+		if im.Abs == "" {
+			return ""
+		}
+		ok, vals, tabs := resSx(im.Res, im.Child)
+		var nested []string
+		for _, n := range im.Nested {
+			if n.Abs == "" {
+				continue
+			}
+			nok, nvals, ntabs := resSx(n.Res, n.Child)
+			nested = append(nested, sxL(n.Abs, sxBool(n.Alt), nok, nvals, ntabs))
+			total += len(n.Abs)
+		}
+		imgs = append(imgs, sxL(im.Abs, ok, vals, tabs, sxList(nested)))
+		total += len(im.Abs)
+	}
+	if total > 8<<20 {
+		return ""
+	}
+	return sxL(sxList(keys), sxBool(c.Opts.AsyncWAL), sxList(imgs))
+}
 func (c *c02Case) Evals() int {
 	n := 0
 	for _, im := range c.Images {
@@ -539,7 +603,7 @@ func genCrashCase(r *rand.Rand, async bool, nest int, nsteps int, big bool) *c02
 	for k := 0; k < 4; k++ {
 		keys = append(keys, []byte(fmt.Sprintf("key%d", k)))
 	}
-	c := &c02Case{Keys: keys, Nest: nest}
+	c := &c02Case{Keys: keys, Nest: nest, NoAbs: big}
 	c.Opts = dbOpts{MemstoreBytes: 1 << 30, Threshold: 1, MaxSize: []uint64{400, 5 << 30}[r.Intn(2)], RatioPct: 100, WBuf: []uint64{16, 64, 4096}[r.Intn(3)], RBuf: 4096, AsyncWAL: async}
 	rot := 0
 	for j := 0; j < nsteps; j++ {
